@@ -330,6 +330,8 @@ def main(sys_args=None):
                 args.items[0],
                 args.print_format,
             ):
+                if args.max_results <= 0:
+                    break
                 outs.append(item)
                 if len(outs) >= args.max_results:
                     break
